@@ -24,6 +24,12 @@ TermHosts(t, grp) ==
     [] OTHER        -> {}
 
 SvcMatch(svc, p) == svc = "ip" \/ svc = p \/ (svc = "tcp" /\ p \in {"tcp80", "tcp22"})
+\* the service of an ACE may be an object-group of type service (ASA): a name from this closed set;
+\* its members are atomic services
+SvcGroupNames == {b \o s : b \in {"sg0", "sg1"}, s \in {"", "-DRC-0", "-DRC-1", "-DRC-2", "-DRC-3"}}
+SvcMatchG(svc, p, grp) ==
+  IF svc \in SvcGroupNames THEN svc \in DOMAIN grp /\ \E m \in grp[svc].m : SvcMatch(m, p)
+  ELSE SvcMatch(svc, p)
 
 Packets == [s : Hosts, d : Hosts, p : AtomSvc]
 
@@ -31,7 +37,7 @@ Matches(ace, pkt, grp) ==
   /\ ace.act \in {"permit", "deny"}
   /\ pkt.s \in TermHosts(ace.src, grp)
   /\ pkt.d \in TermHosts(ace.dst, grp)
-  /\ SvcMatch(ace.svc, pkt.p)
+  /\ SvcMatchG(ace.svc, pkt.p, grp)
 
 \* first match wins, implicit deny at the end
 RECURSIVE VerdictFrom(_, _, _, _)
